@@ -73,7 +73,7 @@ func setup() {
 		// "nested" calls it before its call-next-method, which must go on with the chain of the outer call
 		ev.MustEval(s, "(defgeneric c10-helper (x))")
 		ev.MustEval(s, "(defmethod c10-helper ((x t)) x)")
-		ev.MustEval(s, "(defmethod c10-helper :around ((x t)) (list 0 (call-next-method x)))")
+		ev.MustEval(s, "(defmethod c10-helper :around ((x t)) (list 0 (call-next-method)))") // without arguments: those of this call
 	})
 }
 
@@ -179,6 +179,10 @@ func methodBody(q, style string, id, n int, tagged bool) string {
 		case "noargs":
 			return fmt.Sprintf("%s (list %d (call-next-method) %s)", mark(id), id, mark(-id))
 		case "nested":
+			if !tagged {
+				// the value of the nested call is recorded with the mark: its methods must get its own argument
+				return fmt.Sprintf("(vt:mark %d (c10-helper 0)) (list %d %s %s)", id, id, cnm, mark(-id))
+			}
 			return fmt.Sprintf("%s (c10-helper 0) (list %d %s %s)", mark(id), id, cnm, mark(-id))
 		}
 		return fmt.Sprintf("%s (list %d %s %s)", mark(id), id, cnm, mark(-id))
